@@ -28,6 +28,7 @@ inductive PyVal
   | none
   | list (l : List PyVal)
   | tuple (l : List PyVal)
+  | dict (kv : List (Str × PyVal))     -- string keys, insertion order
 deriving Repr, Inhabited
 
 def escapeChar (q : Char) (c : Char) : Str :=
@@ -60,9 +61,13 @@ def PyVal.repr : PyVal → Str
     match reprAll l with
     | [x] => '(' :: x ++ [',', ')']
     | xs => '(' :: intercalate [',', ' '] xs ++ [')']
+  | .dict kv => '{' :: intercalate [',', ' '] (reprItems kv) ++ ['}']
 def reprAll : List PyVal → List Str
   | [] => []
   | v :: vs => v.repr :: reprAll vs
+def reprItems : List (Str × PyVal) → List Str
+  | [] => []
+  | (k, v) :: rest => (reprStr k ++ [':', ' '] ++ v.repr) :: reprItems rest
 end
 
 /-- `repr(dict)` with string keys, insertion order -/
@@ -81,11 +86,14 @@ structure Callable where
   ident : Nat
 deriving DecidableEq, Repr
 
-/-- what defines a node: the callable, the static part of the payload, the names of the inputs -/
+/-- what defines a node: the callable, the static part of the payload, the names of the inputs, and the
+number of outputs (`num_outputs`: 1, or the length of `yields`) — which the name does NOT cover -/
 structure Comp (σ : Type) where
   func : Callable
   statics : σ
   inputs : List Str
+  outputs : Nat := 1
+deriving DecidableEq
 
 /-- the string that is hashed: `f"{payload}{[input names]}"`, `R` renders the statics -/
 def render {σ : Type} (R : σ → Str) (c : Comp σ) : Str :=
@@ -98,6 +106,15 @@ def nodeName {σ : Type} (H : Str → Str) (R : σ → Str) (c : Comp σ) : Str 
 /-- `Node.name` with an explicit label (source nodes) -/
 def nodeNameLabelled {σ : Type} (H : Str → Str) (R : σ → Str) (label : Str) (c : Comp σ) : Str :=
   label ++ ':' :: H (render R c)
+
+/-! ### unions -/
+
+/-- `deduplicate_nodes` over the nodes of a union (`Cascade.from_actions`, `+`, `+=`): of the nodes that are the same
+computation (same callable object, statics, inputs, outputs) the first one is kept -/
+def insertNew {σ : Type} [DecidableEq σ] (acc : List (Comp σ)) (c : Comp σ) : List (Comp σ) :=
+  if c ∈ acc then acc else acc ++ [c]
+
+def dedupNodes {σ : Type} [DecidableEq σ] (g : List (Comp σ)) : List (Comp σ) := g.foldl insertNew []
 
 /-- the concrete statics of a payload: positional arguments (a list) and keyword arguments -/
 abbrev Statics := List PyVal × List (Str × PyVal)
@@ -119,6 +136,38 @@ def sourceLabels : List (Str × List Nat) → List Str → List Str
   | (n, idx) :: rest, seen =>
     let label := if seen.contains n then n ++ tupleRepr idx else n
     label :: sourceLabels rest (label :: seen)
+
+/-! ### whole computations -/
+
+mutual
+/-- a node together with everything it is computed from. `label`: the explicit name `from_source` passes
+(`none`: the callable's `__name__`); `outputs`: the number of outputs -/
+inductive Term (σ : Type)
+  | node (label : Option Str) (func : Callable) (statics : σ) (outputs : Nat) (args : Args σ)
+/-- the inputs of a node in parameter order: a node, or one named output of a node -/
+inductive Args (σ : Type)
+  | nil
+  | cons (t : Term σ) (out : Option Str) (rest : Args σ)
+end
+
+mutual
+/-- `Node.name`, bottom-up -/
+def Term.name {σ : Type} (H : Str → Str) (R : σ → Str) : Term σ → Str
+  | .node label f s _ args => (label.getD f.name) ++ ':' :: H (f.name ++ R s ++ reprNames (Args.names H R args))
+def Args.names {σ : Type} (H : Str → Str) (R : σ → Str) : Args σ → List Str
+  | .nil => []
+  | .cons t out rest => inputName (Term.name H R t) out :: Args.names H R rest
+end
+
+mutual
+/-- the computation a term denotes: the label is only the prefix of the name, the number of outputs is not covered by
+the name (`c14_outputs_full_fails`) — both are normalised away -/
+def Term.comp {σ : Type} : Term σ → Term σ
+  | .node label f s _ args => .node (some (label.getD f.name)) f s 0 (Args.comp args)
+def Args.comp {σ : Type} : Args σ → Args σ
+  | .nil => .nil
+  | .cons t out rest => .cons (Term.comp t) out (Args.comp rest)
+end
 
 /-! ### operations leave operands intact -/
 
@@ -257,18 +306,67 @@ def transformH {P : Type} (w : Rewrap) (h : Heap) (a : Nat) (f : TFunc P) (param
     | .ok h'' => .ok (h'', r)
     | .error e => .error e
 
+/-- `_combine_nodes(action, method, dim, batch_size, keep_dim)` (stack / concatenate) on the heap. On a dimension of
+size 1 nothing is computed: with `keep_dim` THE ACTION ITSELF is handed back (no new object); otherwise a new object
+sharing the node array is squeezed in place (`action = type(action)(action.nodes); action._squeeze_dimension(dim)`). -/
+def combineH (h : Heap) (method : String) (kw : List (String × Static)) (a : Nat) (d : String) (b : Nat) (keep : Bool) :
+    Except Err (Heap × Nat) :=
+  match (h.cell a).findDim d with
+  | none => .error .key
+  | some x =>
+    if x.labels.length = 1 then
+      if keep then .ok (h, a)
+      else
+        match squeezeAt (h ++ [h.cell a]) h.length d with
+        | .ok h' => .ok (h', h.length)
+        | .error e => .error e
+    else
+      match reduce (backendPayload method kw) none d b keep (h.cell a) with
+      | .ok r => .ok (h ++ [r], h.length)
+      | .error e => .error e
+
+/-- `Action.select(criteria, drop)` on the heap: `if len(crit) == 0: return self` — with no criteria, or with one
+criterion that names a scalar coordinate and equals it (`_validate_criteria` drops it), the action itself is handed
+back; otherwise a new action. -/
+def selectH (h : Heap) (a : Nat) (crit : Option (String × Sel Coord)) (drop : Bool) : Except Err (Heap × Nat) :=
+  match crit with
+  | none => .ok (h, a)
+  | some (d, s) =>
+    match (h.cell a).findDim d, s, (h.cell a).scalar? d with
+    | none, .one c, some v => if c = v then .ok (h, a) else .error .notimpl
+    | _, _, _ =>
+      match select d s drop (h.cell a) with
+      | .ok r => .ok (h ++ [r], h.length)
+      | .error e => .error e
+
 /-- the operations of a fluent program, on the heap -/
 inductive HOp (P : Type)
   | op (o : FOp)
   | transform (a : Nat) (f : TFunc P) (params : List P) (dim : DimArg) (axis : Nat)
+  | combine (method : String) (kw : List (String × Static)) (a : Nat) (d : String) (b : Nat) (keep : Bool)
+  | select (a : Nat) (crit : Option (String × Sel Coord)) (drop : Bool)
 
-/-- one statement: on failure nothing the program can reach has changed -/
-def hstep {P : Type} (w : Rewrap) (h : Heap) : HOp P → Heap
-  | .op o => step h o
+/-- one statement: the new heap and the object that is its result (`none`: the statement raised) -/
+def hstepR {P : Type} (w : Rewrap) (h : Heap) : HOp P → Heap × Option Nat
+  | .op o =>
+    match o.run h with
+    | .ok r => (h ++ [r], some h.length)
+    | .error _ => (h, none)
   | .transform a f ps dim axis =>
     match transformH w h a f ps dim axis with
-    | .ok (h', _) => h'
-    | .error _ => h
+    | .ok (h', r) => (h', some r)
+    | .error _ => (h, none)
+  | .combine m kw a d b keep =>
+    match combineH h m kw a d b keep with
+    | .ok (h', r) => (h', some r)
+    | .error _ => (h, none)
+  | .select a crit drop =>
+    match selectH h a crit drop with
+    | .ok (h', r) => (h', some r)
+    | .error _ => (h, none)
+
+/-- one statement: on failure nothing the program can reach has changed -/
+def hstep {P : Type} (w : Rewrap) (h : Heap) (o : HOp P) : Heap := (hstepR w h o).1
 
 def hrun {P : Type} (w : Rewrap) : Heap → List (HOp P) → Heap
   | h, [] => h
